@@ -35,6 +35,9 @@ def run(tier):
     # 2. metamorphic replay, core programs: P vs P ?(E) and P !(E); let and capture
     vecs, st = engine.generate("subif", 2, 8, wd)
     vecs2, st2 = engine.generate("altor", 2, 8, wd)
+    # infix comparisons as bodies, their operands yielding no value, one value, several on both sides of the bound
+    vecs2c, st2c = engine.generate("cmp", 2, 8, wd)
+    vecs2 = vecs2 + vecs2c
     bodies = []
     seen = set()
     for v in vecs + vecs2:
